@@ -51,10 +51,6 @@ func run(r *core.Run) {
 		runTreeReal(r, te, &unit)
 		r.Logf("tree displays through jq functions done, cpu %.1fs", cpuSeconds())
 	}
-	if only == "" || only == "hd" {
-		runHD(r, x, &unit)
-		r.Logf("hexdump section done in %.1fs wall, %.1fs cpu", time.Since(t0).Seconds(), cpuSeconds())
-	}
 	if only == "" || only == "tree" {
 		runTrees(r, te, &unit, 1, 2, core.Pick(r, dslInputs[:1], dslInputs), "dsl_trees", selAll)
 		r.Logf("tree displays up to 2 ops done in %.1fs wall, cpu %.1fs", time.Since(t0).Seconds(), cpuSeconds())
@@ -62,6 +58,11 @@ func run(r *core.Run) {
 			runTrees(r, te, &unit, 3, 3, dslInputs[:1], "dsl_trees_3ops", selReduced)
 			r.Logf("tree displays of 3 op programs done in %.1fs wall, cpu %.1fs", time.Since(t0).Seconds(), cpuSeconds())
 		}
+	}
+	// last: in the thorough tier this is the full option product on every binary
+	if only == "" || only == "hd" {
+		runHD(r, x, &unit)
+		r.Logf("hexdump section done in %.1fs wall, %.1fs cpu", time.Since(t0).Seconds(), cpuSeconds())
 	}
 }
 
